@@ -93,10 +93,16 @@ Theorem C06_slice_length : forall (A : Type) (i j : nat) (xs l : list A), (i <= 
 Proof. intros A. exact (@slice_assign_length A). Qed.
 Print Assumptions C06_slice_assign_spec.
 
-(* the 1-byte SIGNED payload size: a nested packet whose payload is 128 bytes or more can never be accepted
-   (refutation of the full statement for large elements; known finding C06-a) *)
-Theorem C06_refuted_payload_128 : forall St w id sl u payload,
-  (128 <= length payload < 256)%nat -> length u = 3%nat -> id < 2 ^ 32 ->
-  step_class St w NestedProperty (le_encode 4 id ++ [sl] ++ [n2b (N.of_nat (length payload))] ++ u ++ payload) = (w, Some EAssert).
-Proof. exact nested_payload_128_refused. Qed.
-Print Assumptions C06_refuted_payload_128.
+(* packet level (after the repair recorded as fixed: C06-a - the size byte is unsigned): every nested packet whose payload is 0..255 bytes
+   long passes the size check and is handed to nested_apply with exactly that payload; a size byte that differs from the length is refused *)
+Theorem C06_nested_packet_reaches_apply : forall St w id sl u payload,
+  (length payload < 256)%nat -> length u = 3%nat -> id < 2 ^ 32 ->
+  step_class St w NestedProperty (le_encode 4 id ++ [sl] ++ [n2b (N.of_nat (length payload))] ++ u ++ payload) =
+  atomic w (e <- lookup_entity w (Z.of_N id) ;; m <- model_of St (en_type e) ;;
+            '(e', cs) <- nested_apply St e m (Z.eqb (to_signed 1 (b2n sl)) 1) payload ;; Ok (log (put w e') cs)).
+Proof. exact nested_packet_reaches_apply. Qed.
+Theorem C06_nested_packet_size_mismatch : forall St w id sl sz u payload,
+  length u = 3%nat -> id < 2 ^ 32 -> b2n sz <> N.of_nat (length payload) ->
+  step_class St w NestedProperty (le_encode 4 id ++ [sl] ++ [sz] ++ u ++ payload) = (w, Some EAssert).
+Proof. exact nested_packet_size_mismatch. Qed.
+Print Assumptions C06_nested_packet_reaches_apply.
